@@ -604,9 +604,9 @@ pub trait AutoMerge: RemoteSyncHandler {
         );
 
         let local_commits =
-            local.iter().map(|r| r.commit()).collect::<HashSet<_>>();
+            local.iter().map(|r| *r.commit()).collect::<HashSet<_>>();
         let remote_commits =
-            remote.iter().map(|r| r.commit()).collect::<HashSet<_>>();
+            remote.iter().map(|r| *r.commit()).collect::<HashSet<_>>();
 
         // If all the local commits exist in the remote
         // then apply the remote events to the local event
@@ -617,6 +617,12 @@ pub trait AutoMerge: RemoteSyncHandler {
         if local_commits.is_subset(&remote_commits) {
             return Ok(AutoMergeStatus::RewindLocal(remote));
         }
+
+        // An event that is already in the remote patch must not
+        // be added a second time; this happens when an older event
+        // from another device was merged before an event both sides
+        // share so the common ancestor is found before the shared event
+        local.retain(|r| !remote_commits.contains(r.commit()));
 
         // Combine the event records
         local.extend(remote);
